@@ -210,8 +210,12 @@ example : spString Cfg.default [(lit "a b", lit "c d#\"<>~"), ([], []), ([0x00, 
 
 /-! ### facts regenerated from the Go source (T1) -/
 
-/-- `Sort` and `SortAbsolute` use `sort.SliceStable` (the stable sort the model's `sortStable` stands for) and write through -/
+/-- `Sort` and `SortAbsolute` sort with one of the library's STABLE sorts (which the model's `sortStable` stands for), with
+    none of the unstable ones, and write through -/
+def stableSorts : List String := ["sort.SliceStable", "sort.Stable", "slices.SortStableFunc"]
+def unstableSorts : List String := ["sort.Slice", "sort.Sort", "sort.Strings", "slices.Sort", "slices.SortFunc"]
+
 theorem C11_sort_uses_stable : ∀ c ∈ Generated.callees, (c.1 = "SearchParams.Sort" ∨ c.1 = "SearchParams.SortAbsolute") →
-    c.2 = ["sort.SliceStable", "s.update"] := by decide
+    (∃ f ∈ c.2, f ∈ stableSorts) ∧ (∀ f ∈ c.2, f ∉ unstableSorts) ∧ "s.update" ∈ c.2 := by decide
 
 end WhatwgUrl.Props.C11
